@@ -699,7 +699,7 @@ def rule_length(facts, impls):
             else:
                 ln.ok({"function": b.id, "leaves": nleaf, "delta": " or ".join(_fmt_poly(w) for w in wants), "verdict": "ok"})
     ln.require_floor(12, "sink operations summarised")
-    return [pf, wd, ln, rule_wordcount(facts, impls)]
+    return [pf, wd, ln, rule_wordcount(facts, impls), rule_twoc_default(facts)]
 
 
 def _eval_pad(rv, B, unit):
@@ -981,3 +981,98 @@ def rule_wordcount(facts, impls):
                        "storage_len": E.show(finL)[:200], "verdict": "invariant preserved on every row"})
     wc.require_floor(12, "sink operations summarised")
     return wc
+
+
+# ------------------------------------------------------------------------------------------------ TWOC/default
+# The provided write_twoc is what every sink (in-memory or user-defined) uses for two's-complement fields.  Its summary is
+# one required-method call; the (count, operand) pair of that call is evaluated for every width 1..=64 and a set of values
+# spanning the width's range, and the bits the required method would emit (its documented meaning: the n most / least
+# significant bits of the operand) must be the n-bit two's-complement code of the value.
+
+def rule_twoc_default(facts):
+    from . import lib_effect as E
+    tw = RuleResult("TWOC/default", "the provided write_twoc hands the n-bit two's-complement code of the value to a required method, "
+                                    "for every width 1..=64")
+    b = facts.bodies.get("bitsink::BitSink::write_twoc")
+    if b is None:
+        tw.fail(Finding("TWOC/default", "bitsink::BitSink::write_twoc", "anchor-missing", 0, "", "default write_twoc not found"))
+        return tw
+    ectx = E.Ctx(facts)
+    it = E.Interp(ectx, b)
+    try:
+        ev = it.run()
+    except E.Undecided as e:
+        tw.fail(Finding("TWOC/default", b.id, "undecided", 0, b.loc(), "cannot summarise %s: %s" % (b.id, e)))
+        return tw
+
+    def emitted(events, env, out):
+        for e in events:
+            if e[0] == "w":
+                n = E.evalc(e[2], env)
+                v = E.evalc(e[3], env)
+                ty = ectx.wtypes.get(e[5])
+                if n is None or v is None:
+                    raise E.Undecided("operand of %s at %s is not evaluable: %s / %s" % (e[4], e[5], E.show(e[2])[:60], E.show(e[3])[:80]))
+                if e[4] == "write_lsbs":
+                    out.append((n, v & ((1 << n) - 1)))
+                elif e[4] == "write_msbs":
+                    W = E.INT_BITS.get(ty)
+                    if W is None:
+                        raise E.Undecided("operand type of write_msbs at %s unknown" % e[5])
+                    if n > W:
+                        raise E.Undecided("write_msbs of %d bits from a %d-bit operand" % (n, W))
+                    out.append((n, ((v & ((1 << W) - 1)) >> (W - n)) & ((1 << n) - 1) if n else 0))
+                elif e[4] == "write":
+                    out.append((n, v & ((1 << n) - 1)))
+                else:
+                    raise E.Undecided("default write_twoc calls %s" % e[4])
+            elif e[0] == "case":
+                d = E.evalc(e[1], env)
+                if d is None:
+                    raise E.Undecided("branch condition %s is not evaluable" % E.show(e[1])[:80])
+                taken = None
+                for lab, evs in e[2]:
+                    labs = lab if isinstance(lab, tuple) else (lab,)
+                    if d in labs or (taken is None and "else" in labs):
+                        taken = evs
+                        if d in labs:
+                            break
+                emitted(taken or [], env, out)
+            elif e[0] in ("mark",):
+                continue
+            else:
+                raise E.Undecided("unexpected %s event in the default write_twoc" % e[0])
+    bad = None
+    rows = 0
+    try:
+        for n in range(1, 65):
+            lo, hi = -(1 << (n - 1)), (1 << (n - 1)) - 1
+            vals = sorted({0, 1, -1, lo, hi, lo + 1, hi - 1, hi // 3, lo // 3, 0x5A5A5A5A5A5A5A5A & hi, -(0x2A2A2A2A2A2A2A2A & hi) - 1})
+            for val in vals:
+                if not lo <= val <= hi:
+                    continue
+                rows += 1
+                out = []
+                emitted(ev, {("p", 2, ()): val, ("p", 3, ()): n}, out)
+                total = sum(x[0] for x in out)
+                bits = 0
+                for k, v in out:
+                    bits = (bits << k) | v
+                want = val & ((1 << n) - 1)
+                if total != n or bits != want:
+                    bad = (n, val, total, bits, want)
+                    break
+            if bad:
+                break
+    except E.Undecided as e:
+        tw.fail(Finding("TWOC/default", b.id, "undecided", 0, b.loc(), "fail closed: %s" % e))
+        return tw
+    if bad:
+        n, val, total, bits, want = bad
+        tw.fail(Finding("TWOC/default", b.id, "wrong-code", 0, b.loc(),
+                        "write_twoc(%d, %d) hands %d bits with value %#x to the sink; the %d-bit two's-complement code of %d is %#x. "
+                        "Every sink - in-memory or user-defined - receives the wrong field" % (val, n, total, bits, n, val, want)))
+    else:
+        tw.ok({"function": b.id, "rows": rows, "summary": "; ".join(E.flat(ev))[:200], "verdict": "n-bit code on every row"})
+    tw.require_floor(1, "default write_twoc")
+    return tw
